@@ -15,7 +15,7 @@ ID = "C11"
 LEVEL = "exploration"
 SHARDS = {"quick": 8, "thorough": 16}
 RULE = ("a raw 0xC0 body (assembled by the model's vendor-layout encoder plus raw byte overrides) is reported to a fresh "
-        "AirConditioner, either through refresh() against the model device or through Response.construct + _update_state, or twice to the same client with local attribute changes in between; the "
+        "AirConditioner, either through refresh() against the model device or through Response.construct + _update_state, or twice to the same client with local attribute changes in between, or after a different report to the same client, or through a multi-query refresh (energy polling on) in which an unsolicited notification overtakes the state reply; the "
         "public attributes must equal the vendor-layout reading of the body: power, mode (members 1..6), setpoint (alternate code "
         "c!=0 => c+12 else primary+16, + half bit), fan (member or raw 0..127), swing (canonical nibbles), turbo, aux mode, eco, "
         "purifier, sleep, Fahrenheit, follow-me, filter, display ((b14>>4)&7 != 7), target humidity iff length>=20 else None, "
@@ -65,13 +65,38 @@ def check_case(case: dict):
 
         async def main(loop):
             m = ModelAC()
-            m.response_hook = lambda fr, p, outp: [frame] if p.body[0] == 0x41 else outp
+            current = {"frame": frame}
+            note = rc.frame_build(0x05, bytes([0xB5, 0x01, 0x12, 0x02, 0x01, 0x01]), proto=3)       # an unsolicited type-5 notification
+
+            def hook(fr, p, outp):
+                if p.body[0] == 0x41 and p.body[1] == 0x81:
+                    return [current["frame"]]
+                return outp
+            m.response_hook = hook
             dev = SimDevice(loop, version=case.get("version", 2), device_id=3, ac=m,
                             token=hashlib.sha512(b"t").digest(), key=hashlib.sha256(b"k").digest())
+            if via == "refresh_multi":
+                # the refresh consists of several queries (energy polling on) and the state reply is overtaken by a
+                # notification that arrives in its own segment: the reply then arrives during the next query of the same refresh
+                def on_data(dev_, conn, fr_):
+                    pp = rc.frame_parse(fr_)
+                    if pp.body[0] == 0x41 and pp.body[1] == 0x81:
+                        conn.send_stream(dev_.wrap(conn, note), delay=0.02)
+                        conn.send_stream(dev_.wrap(conn, current["frame"]), delay=0.06)
+                        return ("drop",)
+                    return None
+                dev.on_data = on_data
             net.listen("10.0.0.9", 6444, dev)
             ac = AC(ip="10.0.0.9", port=6444, device_id=3)
             if dev.version == 3:
                 await ac.authenticate(dev.token, dev.key)
+            if via == "refresh_multi":
+                ac.enable_energy_usage_requests = True
+            if case.get("before"):
+                # history: the same client saw another report first (every field different where the layout allows)
+                current["frame"] = rc.frame_build(3, bytes.fromhex(case["before"]), proto=3)
+                await ac.refresh()
+                current["frame"] = frame
             await ac.refresh()
             if via == "refresh2":
                 # history: the same state was already reported once, then the user changed attributes locally
@@ -121,7 +146,7 @@ def _nt(body: bytes, case) -> bool:
 
 def _run_one(ctx, case):
     body = bytes.fromhex(case["body"])
-    ctx.case(hash((body, case.get("via", "decoder"), case.get("check", "crc"), case.get("ftype", 3))), _nt(body, case),
+    ctx.case(hash((body, case.get("via", "decoder"), case.get("check", "crc"), case.get("ftype", 3), case.get("before"))), _nt(body, case),
              cls=case.get("cls", "random") + "/" + case.get("via", "decoder"))
     ctx.sample(case.get("cls", "random"), case)
     return check_case(case)
@@ -190,6 +215,20 @@ def run(ctx) -> None:
             c2 = dict(case, via="refresh" if i % 4 else "refresh2", version=2 if i % 3 else 3)
             ctx.check(c2, lambda c: _run_one(ctx, c))
     ctx.sweep("temperature / setpoint-code / per-byte / length grids", len(cases), True)
+    # the same client sees two different reports one after the other (the second one decides): every interpreted byte of the
+    # first report differs, incl. sensor present -> absent (0xFF), long -> short body, flags set -> clear
+    full = bytes.fromhex("c001ab667f7f003c1f18ff5c68140d6e000000283c012c00")       # everything switched on, sensors present, humidity, freeze
+    seq = 0
+    for i, case in enumerate(cases):
+        if i % 9 == 0 and case.get("check", "crc") == "crc" and case.get("ftype", 3) == 3:
+            seq += 1
+            if ctx.mine(seq):
+                c3 = dict(case, via="refresh", version=2 if seq % 3 else 3, before=full.hex(), cls=case["cls"] + " after another report")
+                ctx.check(c3, lambda c: _run_one(ctx, c))
+            if ctx.mine(seq + 1) and seq % 2 == 0:
+                c4 = dict(case, via="refresh_multi", version=2 if seq % 3 else 3, cls=case["cls"] + " multi-query")
+                ctx.check(c4, lambda c: _run_one(ctx, c))
+    ctx.sweep("second report on the same client / multi-query refresh with an overtaken state reply", seq, True)
 
     def mk(state, length, overrides, check, ftype, via, version):
         s = gens.to_acstate(state)
@@ -199,5 +238,5 @@ def run(ctx) -> None:
     overrides = st.dictionaries(st.sampled_from([1, 2, 4, 5, 6, 7, 8, 9, 10, 13, 14, 15, 16, 17, 18, 19, 20, 21, 22, 23]), st.integers(0, 255), max_size=6) \
         .map(lambda d: {k: (v if k != 15 else ((v & 0xF) % 10) | (((v >> 4) % 10) << 4)) for k, v in d.items()})
     rc_cases = st.builds(mk, gens.device_states(), st.integers(16, 40), overrides, st.sampled_from(["crc", "sum"]), st.sampled_from([2, 3]),
-                         st.sampled_from(["decoder", "refresh", "refresh2"]), st.sampled_from([2, 3]))
+                         st.sampled_from(["decoder", "refresh", "refresh2", "refresh_multi"]), st.sampled_from([2, 3]))
     ctx.hyp("random", rc_cases, lambda c: _run_one(ctx, c), ctx.n(3000, 320000))
